@@ -1235,6 +1235,7 @@ namespace plan
         {
             std::string a = op["a"];
             json ev{{"e", a}};
+            g_current["op"] = a;   // a crash / hang event names the call it happened in
             if (a == "SetPdef")
             {
                 bound = op["p"];
@@ -1352,6 +1353,20 @@ namespace plan
         }
     }
 
+    static void onLifecycleCrash(int sig)
+    {
+        json ev = g_current.is_object() ? g_current : json::object();
+        ev["e"] = "Crash";
+        ev["what"] = sig == SIGSEGV ? "SIGSEGV" : sig == SIGABRT ? "SIGABRT" : sig == SIGFPE ? "SIGFPE" : "signal";
+        if (vt::Trace::current())
+        {
+            vt::Trace::current()->emit(ev);
+            vt::Trace::current()->flush();
+        }
+        std::cout << "CRASH " << ev.dump() << std::endl;
+        _exit(70);
+    }
+
     // same command-line protocol as `planners c03` (tools/planrun.py drives it): RUN <n> before each job,
     // RECORDED <n> at the end, exit 75 after a Hang event, resume with [skip]
     static int lifecycleShard(int argc, char **argv)
@@ -1363,6 +1378,9 @@ namespace plan
         vt::Trace tr(argv[3], skip > 0);
         g_hangProtocol = true;
         signal(SIGPROF, onCpuLimit);
+        signal(SIGSEGV, onLifecycleCrash);
+        signal(SIGABRT, onLifecycleCrash);
+        signal(SIGFPE, onLifecycleCrash);
         long n = 0;
         for (std::size_t i = 0; i < jobs.size(); ++i)
         {
@@ -1371,7 +1389,7 @@ namespace plan
             if (n++ < skip)
                 continue;
             const json &job = jobs[i];
-            g_current = json{{"planner", job["planner"]}, {"job", job.value("id", 0)}, {"idx", n - 1}};
+            g_current = json{{"planner", job["planner"]}, {"job", job.value("id", 0)}, {"idx", n - 1}, {"op", "-"}};
             std::cout << "RUN " << (n - 1) << std::endl;
             armWatchdog(40);
             runLifecycle(job, tr);
